@@ -79,7 +79,8 @@ def run(ctx):
     ctx.notes["behaviours_from_tlc"] = len(behs)
     for b in behs:
         case = fd.run_history(work, b["cfg"], b["ops"], salt=ctx.rng.randrange(1 << 20),
-                              level=ctx.rng.choice([0, 1, 6, 9]))
+                              level=ctx.rng.choice([0, 1, 6, 9, 9]),
+                              via=ctx.rng.choice(["ctor", "path", "path", "file", "precomputed", "precomputed-file"]))
         case["mixed"] = fd.mixed_mime(b["ops"])
         cases.append(case)
     # C->S: longer random histories
@@ -88,7 +89,8 @@ def run(ctx):
         per_name = ctx.rng.random() < 0.7
         ops = random_ops(ctx.rng, ctx.rng.randint(6, ctx.pick(14, 40)), per_name)
         case = fd.run_history(work, cfg, ops, salt=ctx.rng.randrange(1 << 20),
-                              level=ctx.rng.choice([0, 1, 6, 9]))
+                              level=ctx.rng.choice([0, 1, 6, 9, 9]),
+                              via=ctx.rng.choice(["ctor", "path", "path", "file", "precomputed", "precomputed-file"]))
         case["mixed"] = fd.mixed_mime(ops)
         cases.append(case)
     # confinement probes
@@ -109,7 +111,7 @@ def run(ctx):
                                                       for e in c["events"]]]))
             if st != "ok":
                 e = c["events"][pos - 1]
-                sig = {"kind": "hist", "mixed_mime": c["mixed"], "flat": c["cfg"]["flat"],
+                sig = {"kind": "hist", "via": c.get("via", "ctor"), "mixed_mime": c["mixed"], "flat": c["cfg"]["flat"],
                        "gzip": c["cfg"]["gzip"], "op": e["op"], "ow": e["ow"], "res": e["res"]}
                 ctx.violation(clause, sig, {"cfg": c["cfg"], "level": c["level"], "step": pos,
                                             "ops": [{k: e2[k] for k in ("op", "name", "c", "v", "mime", "ow")}
